@@ -288,7 +288,8 @@ static void *enq_main(void *arg)
  * stop + join + hand-over + free) takes.  On correct code the caller is inside call_rcu()'s own
  * read-side section there, so the teardown's grace period waits for it; if that section does not cover
  * the enqueue the callback lands on a stopped, freed helper (lost callback / use after free). */
-static uint64_t pre_enqueue_stalls;
+static uint64_t pre_enqueue_stalls, pre_enqueue_stalls_spanning_teardown;
+static uint64_t percpu_cycles;
 static void crcu_user_hook(int point, const void *ctx)
 {
 	(void) ctx;
@@ -297,12 +298,73 @@ static void crcu_user_hook(int point, const void *ctx)
 	struct vp_thr *t = vp_self();
 	if (vp_rand_n(&t->rng, 1500))
 		return;
-	__atomic_fetch_add(&pre_enqueue_stalls, 1, __ATOMIC_RELAXED);
-	usleep(8000 + vp_rand_n(&t->rng, 40000));
+	/* bounded number of long stalls per run: on correct code each one holds the manager's grace
+	 * period (hence the whole teardown) until the bound expires */
+	if (__atomic_fetch_add(&pre_enqueue_stalls, 1, __ATOMIC_RELAXED) >= 10) {
+		usleep(2000 + vp_rand_n(&t->rng, 10000));
+		return;
+	}
+	uint64_t c0 = VP_LOAD(percpu_cycles), t0 = vp_now_ns();
+	while (VP_LOAD(percpu_cycles) < c0 + 2 && vp_now_ns() - t0 < 700000000ULL && !VP_LOAD(stop_flag))
+		usleep(1000);
+	if (VP_LOAD(percpu_cycles) >= c0 + 2)
+		__atomic_fetch_add(&pre_enqueue_stalls_spanning_teardown, 1, __ATOMIC_RELAXED);
 }
 
 /* per-CPU helper manager */
-static uint64_t percpu_cycles;
+#if !(VP_ASAN || VP_TSAN)
+#include <malloc.h>
+/* F5(a) again: a destroyed helper's memory is handed straight back by malloc() to the helper created
+ * next, which would make a stale enqueue land on a live helper and go unnoticed.  After every teardown
+ * the manager re-allocates the blocks of the destroyed per-CPU helpers itself, fills them with a
+ * non-canonical pointer pattern and keeps them for two cycles: a late enqueue onto a destroyed helper
+ * then faults (ASan / TSan builds rely on the sanitizer's own quarantine instead). */
+#define SPOIL_MAX 512
+static void *spoil[2][SPOIL_MAX];
+static int nspoil[2];
+static uint64_t spoiled_blocks;
+static int snapshot_percpu(void **stale, size_t *usz)
+{
+	int n = 0;
+	long ncpu = sysconf(_SC_NPROCESSORS_CONF);
+	for (long c = 0; c < ncpu && n < SPOIL_MAX; c++) {
+		struct call_rcu_data *d = get_cpu_call_rcu_data((int) c);
+		if (d) {
+			stale[n++] = d;
+			*usz = malloc_usable_size(d);
+		}
+	}
+	return n;
+}
+static void spoil_freed(void **stale, int ns, size_t usz, int gen)
+{
+	for (int i = 0; i < nspoil[gen]; i++)
+		free(spoil[gen][i]);
+	nspoil[gen] = 0;
+	if (!ns || !usz)
+		return;
+	void *extra[4 * SPOIL_MAX];
+	int nextra = 0, got = 0;
+	for (int tries = 0; tries < 4 * ns && got < ns && nextra < 4 * SPOIL_MAX; tries++) {
+		void *p = malloc(usz);
+		int hit = 0;
+		for (int i = 0; i < ns; i++)
+			if (stale[i] == p) { hit = 1; break; }
+		if (hit) {
+			uint64_t *w = p;
+			for (size_t k = 0; k < usz / 8; k++)
+				w[k] = (uint64_t) (uintptr_t) VP_POISON_PTR;
+			spoil[gen][nspoil[gen]++] = p;
+			got++;
+		} else
+			extra[nextra++] = p;
+	}
+	for (int i = 0; i < nextra; i++)
+		free(extra[i]);
+	spoiled_blocks += (uint64_t) got;
+}
+#endif
+
 static void *manager_main(void *arg)
 {
 	(void) arg;
@@ -317,12 +379,20 @@ static void *manager_main(void *arg)
 		vp_rcu_online();
 		if (!churn_helpers)
 			continue;
+#if !(VP_ASAN || VP_TSAN)
+		void *stale[SPOIL_MAX];
+		size_t usz = 0;
+		int ns = snapshot_percpu(stale, &usz);
+#endif
 		vp_rcu_offline();
 		free_all_cpu_call_rcu_data();
 		vp_rcu_online();
+#if !(VP_ASAN || VP_TSAN)
+		spoil_freed(stale, ns, usz, (int) (percpu_cycles & 1));
+#endif
 		if (create_all_cpu_call_rcu_data(flags))
 			vp_violation("create_all_cpu_call_rcu_data-failed", "cfg=%s errno=%d", cfgname, errno);
-		percpu_cycles++;
+		VP_STORE(percpu_cycles, percpu_cycles + 1);
 		__atomic_store_n(&vp_self()->progress, vp_self()->progress + 1, __ATOMIC_RELAXED);
 	}
 	rcu_unregister_thread();
@@ -654,6 +724,10 @@ int main(int argc, char **argv)
 	vp_counter_add("helper_destroy_cycles", hc);
 	vp_counter_add("percpu_recreate_cycles", percpu_cycles);
 	vp_counter_add("pre_enqueue_stalls", __atomic_load_n(&pre_enqueue_stalls, __ATOMIC_RELAXED));
+	vp_counter_add("pre_enqueue_stalls_spanning_teardown", __atomic_load_n(&pre_enqueue_stalls_spanning_teardown, __ATOMIC_RELAXED));
+#if !(VP_ASAN || VP_TSAN)
+	vp_counter_add("destroyed_helper_blocks_poisoned", spoiled_blocks);
+#endif
 	vp_counter_add("reader_sections", secs);
 	vp_counter_add("reader_validations", vals);
 #if !(VP_ASAN || VP_TSAN)
